@@ -404,6 +404,10 @@ static int do_op(int which, inst_t *I, const char *op, int *perr) {
             qtreetbl_obj_t *o = d ? tfind_data(t->root, d) : NULL;
             if (!o || so + SELFLEN(ds) > ds || !sl) { cfree(k, n1); fprintf(rf, "noself"); *perr = 0; }
             else { set_alias(which, o->name, o->namesize, d, ds); ENTER; bool r = qtreetbl_putobj(t, (sm & 1) ? o->name : k, n1, (char *)d + so, sl); LEAVE; nalias = 0; cfree(k, n1); BOOLRES(r); } }
+        else if (!strcmp(op, "removeself")) { void *k = cbuf(b1, n1); size_t ds = 0; void *d = qtreetbl_getobj(t, k, n1, &ds, false);
+            qtreetbl_obj_t *o = d ? tfind_data(t->root, d) : NULL;
+            if (!o) { cfree(k, n1); fprintf(rf, "noself"); *perr = 0; }
+            else { set_alias(which, o->name, o->namesize, d, ds); ENTER; bool r = qtreetbl_removeobj(t, o->name, n1); LEAVE; nalias = 0; cfree(k, n1); BOOLRES(r); } }
         else if (!strcmp(op, "get")) { void *k = cbuf(b1, n1); size_t ds = 0; ENTER; void *d = qtreetbl_getobj(t, k, n1, &ds, true); LEAVE; cfree(k, n1); PTRRES(d, ds); }
         else if (!strcmp(op, "remove")) { void *k = cbuf(b1, n1); ENTER; bool r = qtreetbl_removeobj(t, k, n1); LEAVE; cfree(k, n1); BOOLRES(r); }
         else if (!strcmp(op, "min") || !strcmp(op, "max")) { size_t ns = 0; ENTER; void *n = op[1] == 'i' ? qtreetbl_find_min(t, &ns) : qtreetbl_find_max(t, &ns); LEAVE; PTRRES(n, ns); }
@@ -428,6 +432,11 @@ static int do_op(int which, inst_t *I, const char *op, int *perr) {
             if (d) for (size_t i = 0; i < t->range && !o; i++) for (qhashtbl_obj_t *x = t->slots[i]; x; x = x->next) if (x->data == d) { o = x; break; }
             if (!o || so + SELFLEN(ds) > ds || !sl) { cfree(k, n1 + 1); fprintf(rf, "noself"); *perr = 0; }
             else { set_alias(which, o->name, strlen(o->name) + 1, d, ds); ENTER; bool r = qhashtbl_put(t, (sm & 1) ? o->name : k, (char *)d + so, sl); LEAVE; nalias = 0; cfree(k, n1 + 1); BOOLRES(r); } }
+        else if (!strcmp(op, "removeself")) { char *k = cstr(b1, n1); size_t ds = 0; void *d = qhashtbl_get(t, k, &ds, false);
+            qhashtbl_obj_t *o = NULL;
+            if (d) for (size_t i = 0; i < t->range && !o; i++) for (qhashtbl_obj_t *x = t->slots[i]; x; x = x->next) if (x->data == d) { o = x; break; }
+            if (!o) { cfree(k, n1 + 1); fprintf(rf, "noself"); *perr = 0; }
+            else { set_alias(which, o->name, strlen(o->name) + 1, d, ds); ENTER; bool r = qhashtbl_remove(t, o->name); LEAVE; nalias = 0; cfree(k, n1 + 1); BOOLRES(r); } }
         else if (!strcmp(op, "get")) { char *k = cstr(b1, n1); size_t ds = 0; ENTER; void *d = qhashtbl_get(t, k, &ds, true); LEAVE; cfree(k, n1 + 1); PTRRES(d, ds); }
         else if (!strcmp(op, "remove")) { char *k = cstr(b1, n1); ENTER; bool r = qhashtbl_remove(t, k); LEAVE; cfree(k, n1 + 1); BOOLRES(r); }
         else if (!strcmp(op, "next")) { ENTER; bool r = qhashtbl_getnext(t, &I->hcur, true); LEAVE;
@@ -446,6 +455,11 @@ static int do_op(int which, inst_t *I, const char *op, int *perr) {
             if (d) for (qlisttbl_obj_t *x = t->first; x; x = x->next) if (x->data == d) { o = x; break; }
             if (!o || so + SELFLEN(ds) > ds || !sl) { cfree(k, n1 + 1); fprintf(rf, "noself"); *perr = 0; }
             else { set_alias(which, o->name, strlen(o->name) + 1, d, ds); ENTER; bool r = qlisttbl_put(t, (sm & 1) ? o->name : k, (char *)d + so, sl); LEAVE; nalias = 0; cfree(k, n1 + 1); BOOLRES(r); } }
+        else if (!strcmp(op, "removeself")) { char *k = cstr(b1, n1); size_t ds = 0; void *d = qlisttbl_get(t, k, &ds, false);
+            qlisttbl_obj_t *o = NULL;
+            if (d) for (qlisttbl_obj_t *x = t->first; x; x = x->next) if (x->data == d) { o = x; break; }
+            if (!o) { cfree(k, n1 + 1); fprintf(rf, "noself"); *perr = 0; }
+            else { set_alias(which, o->name, strlen(o->name) + 1, d, ds); ENTER; size_t r = qlisttbl_remove(t, o->name); LEAVE; nalias = 0; cfree(k, n1 + 1); fprintf(rf, "%zu", r); } }
         else if (!strcmp(op, "get")) { char *k = cstr(b1, n1); size_t ds = 0; ENTER; void *d = qlisttbl_get(t, k, &ds, true); LEAVE; cfree(k, n1 + 1); PTRRES(d, ds); }
         else if (!strcmp(op, "getmulti")) { char *k = cstr(b1, n1); size_t no = 0; ENTER; qlisttbl_data_t *m = qlisttbl_getmulti(t, k, true, &no); LEAVE; cfree(k, n1 + 1);
             if (m) { fprintf(rf, "n=%zu ", no); ret[nret++] = m; for (size_t i = 0; i < no && m[i].type == 2; i++) { if (i) fputc(',', rf); puthex(rf, m[i].data, m[i].size); if (nret < 127) ret[nret++] = m[i].data; } }
